@@ -49,34 +49,34 @@ DYNAMIC_OK = {
 
 
 def run(prog, chk):
-    filter_closed(prog, chk)
-    consumed(prog, chk)
-    from_bbox_only(prog, chk)
-    transform_names(prog, chk)
-    index_is_position(prog, chk)
-    formatter_cast_guarded(prog, chk)
-    formatter_trims_one_character_class_at_a_time(prog, chk)
-    endpoints_overwritten_only_when_absent(prog, chk)
-    X.check_sinks(prog, chk)
-    X.check_readers(prog, chk)
+    chk.rule(filter_closed, prog, chk)
+    chk.rule(consumed, prog, chk)
+    chk.rule(from_bbox_only, prog, chk)
+    chk.rule(transform_names, prog, chk)
+    chk.rule(index_is_position, prog, chk)
+    chk.rule(formatter_cast_guarded, prog, chk)
+    chk.rule(formatter_trims_one_character_class_at_a_time, prog, chk)
+    chk.rule(endpoints_overwritten_only_when_absent, prog, chk)
+    chk.rule(X.check_sinks, prog, chk)
+    chk.rule(X.check_readers, prog, chk)
     chk.obs = [o for o in chk.obs if o["key"] not in ("A11.sink/events::<impl std::convert::From<events::OutputEvent> for quick_xml::events::Event<'a>>::from:from_escaped:comment",)]
     from props import C17
-    C17.depth_pairing(prog, chk)
+    chk.rule(C17.depth_pairing, prog, chk)
     from props import C03
-    C03.qualified_names(prog, chk)  # same name on output: element and attribute names are the qualified names
-    C03.attrmap_keys_verbatim(prog, chk)
-    C03.writer_is_read_only(prog, chk)
+    chk.rule(C03.qualified_names, prog, chk)  # same name on output: element and attribute names are the qualified names
+    chk.rule(C03.attrmap_keys_verbatim, prog, chk)
+    chk.rule(C03.writer_is_read_only, prog, chk)
     from props import C19, C08
-    C19.text_not_altered(prog, chk)  # "the same text": character content is carried verbatim
-    C08.author_wins(prog, chk)  # the root's own attributes (id, width, viewBox ...) are kept
-    C08.clip_failure_modes(prog, chk)  # "never makes the transform fail": a clip-path reference fails only for the reviewed reasons
-    C08.points_parity(prog, chk)  # "never makes the transform fail": a points list is read with every separator SVG allows
+    chk.rule(C19.text_not_altered, prog, chk)  # "the same text": character content is carried verbatim
+    chk.rule(C08.author_wins, prog, chk)  # the root's own attributes (id, width, viewBox ...) are kept
+    chk.rule(C08.clip_failure_modes, prog, chk)  # "never makes the transform fail": a clip-path reference fails only for the reviewed reasons
+    chk.rule(C08.points_parity, prog, chk)  # "never makes the transform fail": a points list is read with every separator SVG allows
     from props import C18, C10
-    C18.template_source(prog, chk)  # "never makes the transform fail": an id'd element is registered before it is needed by <use> / clip-path
-    C10.retry_progress(prog, chk)  # ... and a forward <use href> / clip-path is retried whatever resolved in between
+    chk.rule(C18.template_source, prog, chk)  # "never makes the transform fail": an id'd element is registered before it is needed by <use> / clip-path
+    chk.rule(C10.retry_progress, prog, chk)  # ... and a forward <use href> / clip-path is retried whatever resolved in between
     from props import strops
-    strops.check_for(prog, chk, "C04")
-    strops.check_number_formatting(prog, chk)  # results are exact up to the 3-decimal *output* rounding  # A14.str-ops: how this property's strings are cut up is a reviewed, frozen inventory
+    chk.rule(strops.check_for, prog, chk, "C04")
+    chk.rule(strops.check_number_formatting, prog, chk)  # results are exact up to the 3-decimal *output* rounding  # A14.str-ops: how this property's strings are cut up is a reviewed, frozen inventory
 
 
 def _derives_from_get_attr(body, op, key, depth=8):
